@@ -546,6 +546,83 @@ func c17Scenario(c c17cfg) *Scenario {
 	return sc
 }
 
+// c17RacingDeploys: two deploys of different services that claim the same host overlap while both wait for their
+// targets (healthy after one probe interval). One of them is rejected when it tries to install; both return within
+// their bounds, and the rejected one's targets receive no probe after it returned.
+func c17RacingDeploys(sameInstant bool) *Scenario {
+	sc := &Scenario{Name: fmt.Sprintf("C17 racing deploys of two services onto one host, sameInstant=%v", sameInstant), Horizon: 90 * time.Second, Bounds: &Bounds{D: 2, S: 0}}
+	var cmds [2]*CmdObs
+	sc.Run = func(w *World) {
+		cmds = [2]*CmdObs{}
+		w.AddTarget("oa:80")
+		w.AddTarget("pa:80", p500(), pOK())
+		w.AddTarget("pb:80", p500(), pOK())
+		if r := w.Deploy(deployArgs("s1", []string{"oa:80"}, []string{"a.example.com"}, nil)); r.Err != nil {
+			w.Note("setup: %v", r.Err)
+			return
+		}
+		time.Sleep(vI/2 + 50*time.Millisecond)
+		var wg vsync.WaitGroup
+		wg.Add(2)
+		w.S.SetWindow(true)
+		for i, tn := range []string{"pa:80", "pb:80"} {
+			i, tn := i, tn
+			vsched.GoTagged("cmd", func() {
+				defer wg.Done()
+				cmds[i] = w.Deploy(deployArgs(fmt.Sprintf("sx%d", i), []string{tn}, []string{"c.example.com"}, nil))
+			})
+			if !sameInstant {
+				time.Sleep(300 * time.Millisecond)
+			}
+		}
+		wg.Wait()
+		w.S.SetWindow(false)
+		w.Net.Mark("settle-start", "")
+		time.Sleep(4*vI + 100*time.Millisecond)
+	}
+	sc.Check = func(w *World) []Violation {
+		var vs []Violation
+		for _, n := range w.Notes {
+			vs = append(vs, Violation{"C17", "setup", n})
+		}
+		if len(vs) > 0 || cmds[0] == nil || cmds[1] == nil || !cmds[0].Done || !cmds[1].Done {
+			return vs
+		}
+		okN := 0
+		for i, c := range cmds {
+			if c.Err == nil {
+				okN++
+			} else if !errors.Is(c.Err, ErrorHostInUse) {
+				vs = append(vs, Violation{"C17", "unexpected-error-class", fmt.Sprintf("racing deploy %d: %v", i, c.Err)})
+			}
+			if c.End > c.Start+vT+vD {
+				vs = append(vs, Violation{"C17", "deploy exceeded-timeout-bound", fmt.Sprintf("racing deploy %d took %v", i, c.End-c.Start)})
+			}
+		}
+		if okN != 1 {
+			vs = append(vs, Violation{"C17", "unexpected-result", fmt.Sprintf("two deploys claiming the same host: %d succeeded (%v / %v)", okN, cmds[0].Err, cmds[1].Err)})
+			return vs
+		}
+		evs := w.Net.Events()
+		for i, tn := range []string{"pa:80", "pb:80"} {
+			cnt := 0
+			for _, e := range evs {
+				if e.Target == tn && e.Seq > cmds[i].EndSeq && (e.Kind == "probe" || e.Kind == "probe-refused") {
+					cnt++
+				}
+			}
+			if cmds[i].Err != nil && cnt > 0 {
+				vs = append(vs, Violation{"C17", "probes-after-return deploy failed host-conflict racing", fmt.Sprintf("%s received %d health probes after the deploy naming it was rejected (%v)", tn, cnt, cmds[i].Err)})
+			}
+			if cmds[i].Err == nil && cnt < 3 {
+				vs = append(vs, Violation{"C17", "probing-stopped-for-live-target", fmt.Sprintf("%s (deployed) got only %d probes in the settle window", tn, cnt)})
+			}
+		}
+		return vs
+	}
+	return sc
+}
+
 func checkC17(t *testing.T, job *Job, res *Result) {
 	tier := job.Tier
 	if job.Replay != nil {
@@ -555,10 +632,11 @@ func checkC17(t *testing.T, job *Job, res *Result) {
 	for _, c := range c17Configs(tier) {
 		scs = append(scs, c17Scenario(c))
 	}
+	scs = append(scs, c17RacingDeploys(false), c17RacingDeploys(true))
 	b := Bounds{D: 1, S: 0}
 	if tier == "thorough" {
 		b = Bounds{D: 2, S: 0}
 	}
-	res.Rule = "configurations = command x pre-state x per-target probe scripts x in-flight sets x (deploy timeout, drain timeout, probe interval) triples; stall bound 0 so that elapsed virtual time is exact; oracle: return time EQUAL to a reference simulator (probe ticker, first 2xx, remaining in-flight time), stated upper bounds, zero probes to removed/replaced/rejected targets in a 4-interval settle window, live targets keep being probed"
+	res.Rule = "configurations = command x pre-state x per-target probe scripts x in-flight sets x (deploy timeout, drain timeout, probe interval) triples; stall bound 0 so that elapsed virtual time is exact; oracle: return time EQUAL to a reference simulator (probe ticker, first 2xx, remaining in-flight time), stated upper bounds, zero probes to removed/replaced/rejected targets in a 4-interval settle window, live targets keep being probed; two deploys of different services racing for one host: exactly one is rejected, in time, and its targets are not probed afterwards"
 	runS(t, job, res, "C17", withReversed(scs), b, 6000)
 }
